@@ -613,3 +613,10 @@ package tbtc
 //@ assume func dkgExecutor.executeDkgValidation#lit2:cancelCtx
 //@   modifies ghost.ctxCancelled
 //@   ensures ghost.ctxCancelled
+
+// The three event kinds use three different caches (their keys are plain hex
+// strings of different things and would collide in a shared cache).
+//@ func newDeduplicator
+//@   property C37
+//@   modifies alloc
+//@   ensures [one-cache-per-event-kind] result != nil && result.dkgSeedCache != nil && result.dkgResultHashCache != nil && result.walletClosedCache != nil && result.dkgSeedCache != result.dkgResultHashCache && result.dkgSeedCache != result.walletClosedCache && result.dkgResultHashCache != result.walletClosedCache
